@@ -61,7 +61,8 @@ def run(ctx, idx):
     ts = prog.methods.get("to_string")
     if ts is None:
         raise AnalysisError("Program.to_string vanished")
-    funcs = [ts] + list(ts.nested.values())
+    funcs = K.helper_closure(idx, ts)
+    byname = {f.name: f for f in funcs}
     L = grammar.Lexicon(idx)
     dfas = {r.token: RL.dfa(r.pattern) for r in L.rules if not r.ignored and r.name != "t_newline"}
     # ------------------------------------------------------------------ a
@@ -182,8 +183,8 @@ def run(ctx, idx):
     elem_handles_list = False
     for f in funcs:
         for n in own_nodes(f.node):
-            if isinstance(n, (ast.GeneratorExp, ast.ListComp)) and K.src(n.generators[0].iter).endswith(".value") and isinstance(n.elt, ast.Call) and isinstance(n.elt.func, ast.Name) and n.elt.func.id in ts.nested:
-                g = ts.nested[n.elt.func.id]
+            if isinstance(n, (ast.GeneratorExp, ast.ListComp)) and K.src(n.generators[0].iter).endswith(".value") and isinstance(n.elt, ast.Call) and isinstance(n.elt.func, ast.Name) and n.elt.func.id in byname:
+                g = byname[n.elt.func.id]
                 first = g.node.args.args[0].arg if g.node.args.args else None
                 for m in own_nodes(g.node):
                     if isinstance(m, ast.Call) and isinstance(m.func, ast.Name) and m.func.id == "isinstance" and len(m.args) == 2 and isinstance(m.args[0], ast.Name) and m.args[0].id == first:
